@@ -377,3 +377,84 @@ func VH_c12_seq_functions() {
 	}
 	zz.Assert(sliceEq(m2, e2), "seq.Map2 is the cross product in row-major order")
 }
+
+// ---- Min / Max / Sort under an order that is coarser than identity (elements compared by a key, so that
+// distinguishable elements tie) and under a relation that is no order at all (incomparable elements, as NaN is
+// for floats): the iterator and the list give the element the eager fp.Seq computation gives.
+
+func lastBest(in []int, better func(a, b int) bool) (int, bool) {
+	if len(in) == 0 {
+		return 0, false
+	}
+	best := in[0]
+	for _, x := range in[1:] {
+		if !better(best, x) { // x replaces the running best unless the best is strictly better
+			best = x
+		}
+	}
+	return best, true
+}
+
+func VH_c12_min_max_by_key() {
+	in := zz.SliceInt("in", zz.Bound("inlen12m", 3, 4), 0, 0)
+	var ord fp.Ord[int]
+	var less func(a, b int) bool
+	if zz.Bool("lawful") {
+		key := func(x int) int { return zz.UFInt("key", x) }
+		less = func(a, b int) bool { return key(a) < key(b) }
+	} else {
+		less = func(a, b int) bool { return zz.UFBool("less", a, b) }
+	}
+	if zz.Bool("lessfunc") {
+		ord = fp.LessFunc[int](less)
+	} else {
+		ord = fp.CompareFunc[int](func(a, b int) int {
+			if less(a, b) {
+				return -1
+			}
+			if less(b, a) {
+				return 1
+			}
+			return 0
+		})
+	}
+	same := func(o fp.Option[int], v int, ok bool) bool {
+		return o.IsDefined() == ok && (!ok || o.Get() == v)
+	}
+	wmax, ok := lastBest(in, func(best, x int) bool { return less(x, best) })
+	wmin, _ := lastBest(in, func(best, x int) bool { return less(best, x) })
+	zz.Assert(same(seq.Max(fp.Seq[int](in), ord), wmax, ok), "seq.Max: the last of the maximal elements")
+	zz.Assert(same(iterator.Max(src(in), ord), wmax, ok), "iterator.Max = seq.Max, also among tied elements")
+	zz.Assert(same(list.Max(lsrc(in), ord), wmax, ok), "list.Max = seq.Max, also among tied elements")
+	zz.Assert(same(seq.Min(fp.Seq[int](in), ord), wmin, ok), "seq.Min: the last of the minimal elements")
+	zz.Assert(same(iterator.Min(src(in), ord), wmin, ok), "iterator.Min = seq.Min, also among tied elements")
+	zz.Assert(same(list.Min(lsrc(in), ord), wmin, ok), "list.Min = seq.Min, also among tied elements")
+}
+
+func VH_c12_sort_by_key() {
+	in := zz.SliceInt("in", zz.Bound("inlen12s", 3, 4), 0, 0)
+	key := func(x int) int { return zz.UFInt("key", x) }
+	ord := fp.LessFunc[int](func(a, b int) bool { return key(a) < key(b) })
+	keep := append([]int(nil), in...)
+	want := seq.Sort(fp.Seq[int](in), ord)
+	zz.Assert(len(want) == len(in), "seq.Sort: length")
+	for i := 1; i < len(want); i++ {
+		zz.Assert(key(want[i-1]) <= key(want[i]), "seq.Sort: ascending by the order")
+	}
+	for i := range in {
+		zz.Assert(in[i] == keep[i], "seq.Sort leaves its argument alone")
+	}
+	eqs := func(a fp.Seq[int]) bool {
+		if len(a) != len(want) {
+			return false
+		}
+		for i := range a {
+			if a[i] != want[i] {
+				return false
+			}
+		}
+		return true
+	}
+	zz.Assert(eqs(iterator.Sort(src(in), ord)), "iterator.Sort = seq.Sort, tied elements in the same order")
+	zz.Assert(eqs(list.Sort(lsrc(in), ord)), "list.Sort = seq.Sort, tied elements in the same order")
+}
